@@ -1039,3 +1039,69 @@ class _EqDict:
         if not ok:
             raise PyRaise(ExcVal("KeyError", (k,)))
         return v
+
+
+# ---------------------------------------------------------------------------------------------
+# bounded stand-in (labelled bounded, never counted as proved): the REAL negotiate_as_acceptor executed by the interpreter on
+# a finite family of concrete configurations and compared with the independent specification.  Its purpose is refutation when
+# the inductive contract above cannot be applied (e.g. the loops were restructured: "undecided"): a disagreement found here is
+# a concrete input, replayed natively.
+# ---------------------------------------------------------------------------------------------
+class NegAcceptorFamilyTask(FiniteTask):
+    name = "bounded/negotiate_as_acceptor/all-orderings-of-up-to-3-transfer-syntaxes"
+    functions = [NEG_AC]
+    backend = "bounded-exhaustive"
+
+    def __init__(self, prefix="C10/"):
+        self.prefix = prefix
+
+    def check(self, repo, emit):
+        import itertools
+        P = f"{self.prefix}bounded:negotiate_as_acceptor"
+        I = Interp(repo, neg_config(self.prefix))
+        cls = repo.cls(f"{PR}:PresentationContext")
+        uids = {}
+
+        def uid_of(v):
+            if v not in uids:
+                uids[v] = UIDv(z3.IntVal(v))
+            return uids[v]
+
+        def cx(cid, ab, ts, scu=None, scp=None):
+            o = Obj(cls)
+            o.fields.update(_context_id=cid, _abstract_syntax=uid_of(ab), _transfer_syntax=[uid_of(t) for t in ts], result=None,
+                            _scu_role=scu, _scp_role=scp, _as_scp=None, _as_scu=None)
+            return o
+        orders = [list(p) for k in (1, 2, 3) for p in itertools.permutations((1, 2, 3), k)]
+        bad_ts, bad_res, bad_n = [], [], []
+        n = 0
+        for rq_ts in orders:
+            for ac_ts in orders:
+                for supported in (True, False):
+                    n += 1
+                    I.begin_path([])
+                    uids.clear()
+                    proposed = [cx(1, 10, rq_ts), cx(3, 11, [1])]
+                    sup = [cx(None, 10 if supported else 12, ac_ts)]
+                    k1, v1 = I.run_function(repo.func(NEG_AC), [proposed, sup, _EqDict(I, {})])
+                    if k1 != "return":
+                        bad_n.append((rq_ts, ac_ts, supported, "raised"))
+                        continue
+                    results = {I.concretize(I._num(c.fields["_context_id"], "int")): c for c in v1[0]}
+                    if sorted(results) != [1, 3] or len(v1[0]) != 2:
+                        bad_n.append((rq_ts, ac_ts, supported, sorted(results)))
+                        continue
+                    c = results[1].fields
+                    common = [t for t in ac_ts if t in rq_ts]
+                    want_res = 3 if not supported else (0 if common else 4)
+                    want_ts = common[0] if (supported and common) else rq_ts[0]
+                    got_ts = [I.concretize(t.ident) for t in c["_transfer_syntax"]]
+                    if c["result"] != want_res:
+                        bad_res.append((rq_ts, ac_ts, supported, c["result"], want_res))
+                    elif got_ts != [want_ts]:
+                        bad_ts.append({"proposed": rq_ts, "acceptor_preference": ac_ts, "got": got_ts, "want": [want_ts]})
+        lab = "[bounded:2-contexts-all-orderings-of-up-to-3-transfer-syntaxes]"
+        emit(f"{P}/one-result-per-proposed-context{lab}", not bad_n, detail=f"{n} configurations; bad={bad_n[:3]}", model={"bad": bad_n[:3]})
+        emit(f"{P}/result-code-is-0-3-or-4-exactly-under-its-condition{lab}", not bad_res, detail=str(bad_res[:3]), model={"bad": bad_res[:3]})
+        emit(f"{P}/accepted-transfer-syntax-is-the-acceptors-first-preference-among-the-proposed-ones{lab}", not bad_ts,
+             detail=str(bad_ts[:3]), model={"bad": bad_ts[:3]})
